@@ -61,7 +61,13 @@ AL_DIRECTED = [("A,A,A,F0,F0,F0", "A|A,A,F1"), ("A,A,A,F0,F0,F0", "A,A|A,A,F1"),
 DB_SETUPS = ["-", "E", "E,E", "E,T0,R", "E,E,T0,R,T1,R", "E,T0,R,E"]
 DB_DIRECTED = [("E", "T0,R|T0,R"), ("E", "T0,R,E|T0,T1"), ("E,T0,R", "E,T1|T0,T1,R"), ("-", "E,T0,R|T0,R,E"),
                ("E,E", "T0,T1,R,R|T1,T0,R,R"), ("E", "T0,R,E,T1,R|T0,T1,T0"), ("E", "T0|T0|T0"),
-               ("E,T0", "R,E|T0,T1")]
+               ("E,T0", "R,E|T0,T1"),
+               # RAII layer: take into holders, move-assign (both holding / source only / target only / self),
+               # move-construct, destroy, then further emplace calls
+               ("E,E", "K0.0,K1.1,M0.1,D0,D1,E,E|T0,T1"), ("E", "K0.0,E,E|T0"),
+               ("E,E", "K0.0,K0.1,C1.0,D1,E|K0.0,M0.0,D0"), ("E,E", "K0.0,M1.0,D0,E,D1,E|K1.1,D1"),
+               ("E", "K0.0,M0.0,D0,E|K0.0,D0"), ("E,E", "K0.0,K1.1,M0.1,E,E|K0.0"),
+               ("E,E", "K0.0,M0.1,E,D0,E|K1.1,M0.1,D0,E"), ("E", "K0.0,D1,C1.0,E,D1,E|K2.0,M1.2,E")]
 TH_SCRIPTS = ["b3,q,x2,q,s2,q,x3,q", "b4,x4,s3,q", "b2,q,x1,s1,q", "s3,q,x1,s1,q,x3,s2,q", "b5,q,x3,b3,q,x2,s2,q",
               "b2,x2,b2,x2,b2,q", "s1,x1,s1,x1,s1,q", "b6,q,x6,s6,q"]
 
@@ -114,12 +120,26 @@ def gen_db(rng, small):
         n = 1 + rng.below(3 if small else 7)
         ops = []
         took = 0
+        acc = rng.chance(1, 2)
         for _ in range(n):
             if budget <= 0:
                 break
             budget -= 1
             r = rng.below(10)
-            if r < 3:
+            if acc:                                       # this thread uses the RAII layer
+                if r < 2:
+                    ops.append("E")
+                    emp += 1
+                elif r < 5 or took == 0:
+                    ops.append("K%d.%d" % (rng.below(3), rng.below(max(1, emp + 1))))
+                    took += 1
+                elif r < 7:
+                    ops.append("M%d.%d" % (rng.below(3), rng.below(3)))
+                elif r < 8:
+                    ops.append("C%d.%d" % (rng.below(3), rng.below(3)))
+                else:
+                    ops.append("D%d" % rng.below(3))
+            elif r < 3:
                 ops.append("E")
                 emp += 1
             elif r < 8 or took == 0:
@@ -266,7 +286,8 @@ def main(argv):
             "reuse": "an allocation at quiescence minted a new value although freed values existed (or the free list lost values)",
             "onewin": "a deposit id was obtained by more than one take, or by none although takes were made",
             "stale": "an id whose item had been taken matched again (or one id was handed out twice)",
-            "payload": "the winning take did not get the item that was emplaced under this id",
+            "payload": "the winning take did not get the item that was emplaced under this id, or an item held through an "
+                       "Accessor was lost / overwritten",
             "stable": "current_thread_id changed during a thread's life"}
     validated = 0
     distinct = set()
